@@ -619,8 +619,8 @@ func ruleEstablishInvariants(c *Ctx, dv *dev, pf *parserFacts) {
 			if s.What != "map update" {
 				continue
 			}
-			name := topFunc(s.Fn).Name()
-			if name != "NoteOn" && name != "AnalogNoteOn" {
+			name := dv.refName(topFunc(s.Fn))
+			if !sameAnchorName(name, "NoteOn") && !sameAnchorName(name, "AnalogNoteOn") {
 				c.Bad("R5.3", "inv("+tr+" entries)/store@"+shortFn(s.Fn), c.P.Pos(s.Instr.Pos()), "tracker entry stored outside NoteOn/AnalogNoteOn: container invariant not established there")
 			}
 		}
